@@ -447,7 +447,7 @@ class Machine:
         if op.kind == "fnitem":
             return None
         if op.kind == "const":
-            m = re.search(r"_([a-z]+[0-9]*)$", op.v)
+            m = re.search(r"_([a-z]+[0-9]*)(?: is .*)?$", op.v)
             if m and m.group(1) in INT_W:
                 return m.group(1)
             if op.v in ("true", "false"):
